@@ -338,7 +338,10 @@ def check_dropped_flow_senders(facts, rep, crate, rid):
                             "the report is still delivered after the slot it was made for has been resolved and freed, and then closes "
                             "(Reset / false) whichever request or stream has re-used the id in the meantime" % fmt(v)[:80])
                 else:
-                    rep.info("%s: conditional report of `%s` on the dropped-flows queue in %s (not decided)" % (rid, fmt(v)[:60], b.path))
+                    rep.bad(rid, key, where,
+                            "a flow id (`%s`) is reported on the dropped-flows queue outside the stream handle's Drop (on some paths): the handle's "
+                            "Drop reports the same id again later, and that second report closes (Reset / end-of-stream) whichever stream has "
+                            "re-used the id in the meantime" % fmt(v)[:80])
     rep.floor(rid, "reports on the dropped-flows queue", k, 2)
 
 
